@@ -105,7 +105,7 @@ def parse_text(stdout, verbose=False):
             out['fin'].append((m.group(1), m.group(2), m.group(3)))
             cur = None
             continue
-        m = re.match(r'^\(rec\) ([-+!])(\S+)\s+-- (\w+) algorithm to (\w+)(?: \((.*)\))? ?$', line)
+        m = re.match(r'^\(rec\) ([-+!])(\S+?)\s*-- (\w+) algorithm to (\w+)(?: \((.*)\))? ?$', line)
         if m:
             out['rec'].append({'sign': m.group(1), 'name': m.group(2), 'cat': m.group(3), 'action': m.group(4), 'notes': m.group(5) or ''})
             cur = None
